@@ -213,9 +213,17 @@ let judge_traces ?(k2 = false) c obs =
   let routes = den_block c.strict [] [] c.stmts in
   let nf = last_stmt_ids (function SNotFound h -> Some h | _ -> None) c.stmts in
   let nal = last_stmt_ids (function SNotAllowed h -> Some h | _ -> None) c.stmts in
+  (* K2 is decided by the model itself: the request is a K2 case iff the int8-cursor machine predicts the index crash *)
+  let model_reqs = if not k2 then [] else
+      (try (match run_model c with Some (_, L (A "reqs" :: mr), _, _) -> mr | _ -> []) with _ -> []) in
+  let model_idx_crash i = match List.nth_opt model_reqs i with
+    | Some mr -> (let (_, _, e) = req_parts mr in to_string e = "(p idx)")
+    | None -> false in
+  let reqno = ref (-1) in
   let rec go rqs obs = match rqs, obs with
     | [], [] -> "ok"
     | rq :: rqs', o :: obs' ->
+      incr reqno;
       let chain = spec_chain c routes nf nal rq in
       let wbs = List.map wb_of chain in
       if List.exists (fun w -> w = None) wbs then go rqs' obs' else begin
@@ -223,7 +231,7 @@ let judge_traces ?(k2 = false) c obs =
         let exp = events_of_effs (onion wbs) in
         let (tr, _, esc) = req_parts o in
         let total_next = List.fold_left (fun n h -> n + List.length (List.filter (fun o -> o = ONext) h)) 0 chain in
-        let wraps = List.length chain + total_next + List.length chain > 127 in
+        let wraps = model_idx_crash !reqno in
         if to_string (L (impl_events tr)) = to_string (L exp) && to_string esc = "none" then go rqs' obs'
         else if k2 && wraps then "bad next-many-cursor-wraps chain=" ^ string_of_int (List.length chain) ^ " nexts=" ^ string_of_int total_next
         else if List.length chain > 63 then "bad chain-longer-than-limit"
@@ -262,7 +270,22 @@ let c05_judge cs obs =
     let started l = List.concat (List.map (fun x -> match ev_id x with Some v when v mod 10 = 0 && v < 9000 -> [v / 10] | _ -> []) l) in
     let nest_ok = 2 * n - 1 < 63 in
     let bad_before = List.exists (fun x -> x = L [A "ab"; A "t"]) before in
-    if to_string esc <> "none" then "bad abort-crash esc=" ^ to_string esc
+    (* the model's view of every request of the case (None when the case is outside the model) *)
+    let model_reqs = (try (match run_model c with Some (_, L (A "reqs" :: mr), _, _) -> Some mr | _ -> None) with _ -> None) in
+    let model_esc0 = match model_reqs with Some (mr :: _) -> (let (_, _, e) = req_parts mr in to_string e) | _ -> "none" in
+    (* follow-up requests (after an abort, possibly after a panic that escaped): they must be what the model says - in
+       particular IsAborted() is false again and every handler runs *)
+    let followups_bad =
+      match model_reqs with
+      | Some (_ :: mrest) ->
+        let rec cmp k ms os = match ms, os with
+          | m :: ms', o :: os' -> if to_string m = to_string o then cmp (k + 1) ms' os'
+            else Some ("bad follow-up-request-differs-after-abort request=" ^ string_of_int k ^ " got=" ^ to_string o ^ " expected=" ^ to_string m)
+          | _ -> None in
+        cmp 1 mrest (List.tl (get_reqs obs))
+      | _ -> None in
+    if to_string esc <> "none" && to_string esc <> model_esc0 then "bad abort-crash esc=" ^ to_string esc
+    else if followups_bad <> None then (match followups_bad with Some s -> s | None -> "ok")
     else if bad_before && not nest_ok then "bad is-aborted-true-without-abort/cursor>=63-by-nesting chain=" ^ string_of_int n
     else if bad_before then "bad is-aborted-true-before-abort"
     else match marker with
@@ -282,7 +305,7 @@ let c05_judge cs obs =
               let ops = prog_of c (nat_of_int id) in
               List.exists (fun o -> o = OEff (EEv (nat_of_int (id * 10 + 1)))) ops
               && not (List.exists (fun x -> ev_id x = Some (id * 10 + 1)) tr)) st in
-          if missing <> [] then "bad suspended-handler-did-not-resume ids=" ^ String.concat "," (List.map string_of_int missing)
+          if missing <> [] && to_string esc = "none" then "bad suspended-handler-did-not-resume ids=" ^ String.concat "," (List.map string_of_int missing)
           else begin
             (* status clause: compare the committed status with the model's *)
             match (try run_model c with Unsupported -> None) with
